@@ -5,7 +5,7 @@
    correspondence run (DESIGN section 5, C09). *)
 From Coq Require Import ZArith List Lia Bool.
 Import ListNotations.
-From LX Require Import Generated.Tables Model.Crc Proofs.CrcProofs Model.CrcBE Proofs.CrcBEProofs.
+From LX Require Import Generated.Tables Model.Crc Proofs.CrcProofs Proofs.CrcBurstProofs Model.CrcBE Proofs.CrcBEProofs.
 Local Open Scope Z_scope.
 
 (* the tables in crc32.c are the tables of the two polynomials (a corrupted entry breaks this) *)
@@ -22,6 +22,16 @@ Theorem crc_detects_byte_substitution : forall pre b b' post,
   crc16_IBM (pre ++ b :: post) 0 <> crc16_IBM (pre ++ b' :: post) 0.
 Proof. intros. split; [apply crc32_detects | apply crc16_detects]; auto. Qed.
 Print Assumptions crc_detects_byte_substitution.
+
+(* any change confined to two adjacent bytes - hence every error burst of up to 9 bits wherever it lies, and every byte-aligned
+   burst of 16 bits - anywhere in data of any length changes the CRC-32 and the CRC-16 *)
+Theorem crc_detects_two_adjacent_bytes : forall pre b1 b2 c1 c2 post,
+  bytes pre -> 0 <= b1 < 256 -> 0 <= b2 < 256 -> 0 <= c1 < 256 -> 0 <= c2 < 256 -> bytes post ->
+  (b1 <> c1 \/ b2 <> c2) ->
+  crc32_A (pre ++ b1 :: b2 :: post) 0 <> crc32_A (pre ++ c1 :: c2 :: post) 0 /\
+  crc16_IBM (pre ++ b1 :: b2 :: post) 0 <> crc16_IBM (pre ++ c1 :: c2 :: post) 0.
+Proof. intros. split; [apply crc32_detects_two_bytes | apply crc16_detects_two_bytes]; auto. Qed.
+Print Assumptions crc_detects_two_adjacent_bytes.
 
 (* gate soundness: for stored members, a payload with one corrupted byte is rejected; a corrupted
    check or length field is rejected unless it is left equal *)
